@@ -5,5 +5,6 @@
 #![allow(missing_docs, dead_code, unreachable_pub, clippy::all)]
 
 pub mod benchlab;
+pub mod paint;
 pub mod pure;
 pub mod vclock;
